@@ -14,7 +14,7 @@ values of the variables nextest sets.
 Process-level facts (fresh process, pgid, stdin, the real execve through the launcher,
 NEXTEST_RUN_ID at run time) are not reached here: they await the end-to-end rig."""
 import itertools, json, os, subprocess
-import vlib
+import vlib, gen_tie
 from vlib import coq_str, coq_list, coq_bool, decode_str
 
 PROP = "C15"
@@ -1054,6 +1054,10 @@ def run(tier, seed):
     chk = vlib.Check(PROP, tier, seed)
     gate = vlib.coq_gate(PROP)
     vlib.gate_or_violation(chk, gate)
+    # DESIGN 11.7 (second round): these decisions are regenerated from the Rust source and proved equal to the
+    # model's for all inputs; a failure is reported when the check finishes unless a stage below finds a
+    # concrete failing input
+    gen_tie.gate(chk, ['spawn_setup'], gate)
     binary, err = vlib.build_harness()
     checker = "make -C coq Properties/C15.vo && coqc gen/assump_C15.v (Print Assumptions)"
     if binary is None:
